@@ -105,7 +105,8 @@ def bound_test_on_log(cond, stepname, cls):
             # local alias of a log of this object, bound once:  records = self.state_record_list
             from ..effects import Effects
             al = Effects._aliases(cond.func, None).get(a.id)
-            a = al[0] if al and len(al) == 1 else a
+            if al:   # (a loop variable over a table of this object's logs has one candidate per row: all must be logs)
+                return all(isinstance(x, ast.Attribute) and isinstance(x.value, ast.Name) and x.value.id == "self" and x.attr in logs_of(cls) for x in al)
         return isinstance(a, ast.Attribute) and isinstance(a.value, ast.Name) and a.value.id == "self" and a.attr in logs_of(cls)
 
     def is_step(n):
